@@ -30,9 +30,12 @@ REQUIRED_CLASSES = ['core-single', 'core-nested', 'core-sequence', 'closure-end'
                     'else-selected', 'later-true-clause-shadowed', 'block-under-group', 'compact-form',
                     'condition-expression', 'modification-in-clause', 'property-in-clause',
                     'mustfail-else-no-open-block', 'mustfail-end-no-open-block', 'mustfail-else-after-end',
-                    'shape-free', 'tainted']
+                    'shape-free', 'tainted', 'empty-or-comment-lines',
+                    'empty-or-comment-lines-with-block-nested-in-unselected-clause']
 REQUIRED_MONITORS = ['parses', 'strict_oracle_programs', 'step_budget_guarded_parses']
-ASSUMPTIONS = ['node names start with a lower-case letter; values are unique per writing line so that the writer of '
+ASSUMPTIONS = ['empty and comment-only lines (at any indentation) are not lines of the program: about a third of the '
+               'programs are laid out with such lines between their lines and judged by the unchanged expectation',
+               'node names start with a lower-case letter; values are unique per writing line so that the writer of '
                'an observed value is identifiable',
                'conditions refer only to nodes that are certainly defined and untainted at that line',
                'second @else / @case after @else inside one block and conditions that reference nodes defined only '
@@ -66,11 +69,48 @@ def cases(rng, tier, shard, nshards, ctx):
         if i % nshards == shard:
             yield c
     for _ in range(NRANDOM[tier] // nshards):
-        yield R.gen_random(rng, maxdepth=rng.choice([2, 3, 4, 5, 5]), clean=rng.random() < 0.55)
+        c = R.gen_random(rng, maxdepth=rng.choice([2, 3, 4, 5, 5]), clean=rng.random() < 0.55)
+        if rng.random() < 0.35:
+            c['noise'] = rng.choice(['every', rng.randrange(1 << 30), rng.randrange(1 << 30)])
+        yield c
+    # the complete core once more, laid out with empty and comment-only lines between its lines
+    for i, c in enumerate(R.enum_core()):
+        if i % nshards == shard and c.get('fam') in ('nested', 'sequence') and (i // nshards) % 3 == 0:
+            c = dict(c)
+            c['noise'] = rng.choice(['every', rng.randrange(1 << 30)])
+            yield c
     for _ in range(NMUSTFAIL[tier] // nshards):
         c = R.gen_mustfail(rng)
         if c:
             yield c
+
+
+# ------------------------------------------------------------------------------------------------ layout noise
+
+NOISE_LINES = ['', '', '   ', '# note', '      # note', '  # @end', '#']
+
+
+def add_noise(text, noise):
+    """empty and comment-only lines, at any indentation, between the lines of the program; they are no lines of the
+    program (EmptyNode) and change nothing: the expectation of the model stays what it was"""
+    import random
+    lines = text.split('\n')
+    out, n = [], 0
+    if noise == 'every':
+        for k, ln in enumerate(lines):
+            out.append(ln)
+            if k < len(lines) - 1:
+                out.append(NOISE_LINES[k % len(NOISE_LINES)])
+                n += 1
+        return '\n'.join(out), n
+    r = random.Random(noise)
+    p = r.choice([0.15, 0.3, 0.6])
+    for k, ln in enumerate(lines):
+        out.append(ln)
+        while k < len(lines) - 1 and r.random() < p:
+            out.append(r.choice(NOISE_LINES))
+            n += 1
+    return '\n'.join(out), n
 
 
 # ------------------------------------------------------------------------------------------------ real run
@@ -282,7 +322,10 @@ def run_case(case, ctx):
     A = R.analyse(case['items'])
     if A.model_invalid:
         return outcome(skip='generator produced a program outside the model: ' + A.model_invalid.split(' of ')[0])
-    obs, keep = run_real(A.text, ctx)
+    text, nnoise = A.text, 0
+    if case.get('noise') is not None:
+        text, nnoise = add_noise(A.text, case['noise'])
+    obs, keep = run_real(text, ctx)
     nev, pdevs = R16.drain_parse_deviations()
     mons = {'parses': 1, 'step_budget_guarded_parses': 1, 'parse_postcondition_evaluations': nev}
     leak = ctx['hyg'].check_restore()
@@ -297,16 +340,22 @@ def run_case(case, ctx):
     else:
         mons['mustfail_programs'] = 1
     cl = classes_of(case, A)
+    if nnoise:
+        mons['programs_with_empty_or_comment_lines'] = 1
+        cl.append('empty-or-comment-lines')
+        if any(b['chain'] and not all(s for _, _, s in b['chain']) for b in A.blocks):
+            cl.append('empty-or-comment-lines-with-block-nested-in-unselected-clause')
+        cl = sorted(set(cl))
     expected = 'must be rejected' if A.mustfail is not None else {k: v['v'] for k, v in A.expected.items()}
     observed = {k: v['v'] for k, v in obs[1].items()} if obs[0] == 'env' else list(obs)
-    sample = dict(text=A.text, expected=expected, observed=observed,
+    sample = dict(text=text, expected=expected, observed=observed,
                   judged='strict' if A.shape_free else ('must-fail' if A.mustfail is not None else 'taint'),
                   deviations=[d.get('known') or d['mech'] for d in devs])
     for d in devs:
-        d['detail'] = dict(d.get('detail') or {}, text=A.text, expected=expected)
+        d['detail'] = dict(d.get('detail') or {}, text=text, expected=expected)
     del keep
     return outcome(classes=cl, nontrivial=bool(A.blocks) and any(e['ev'] == 'w' and e['chain'] for e in A.events) or
-                   A.mustfail is not None, fp=A.text, dev=devs, monitors=mons, sample=sample)
+                   A.mustfail is not None, fp=text, dev=devs, monitors=mons, sample=sample)
 
 
 def pinned(ctx):
